@@ -285,6 +285,7 @@ var streamLines = []string{`{"a":1}`, `{"b":"x","a":null}`, ``, `{`, `[1]`, `{"a
 	`{"k\nk":1,"a":2,"v":"x\ny\r\n"}`, `{"\u000a":"\u000a","\t\u0000":[{"\n":1}]}`,
 	// the shortest texts a recogniser of numbers meets (a lone sign, point or exponent mark), and an array that does
 	// not hold one kind of thing
+	`{"tags":[1],"t\u0061gs":[2],"a":1}`, `{"a":[1],"a":[2]}`, `{"o":{"x":1},"\u006f":{"x":2},"a":2}`, `{"a":{"b":1},"a.b":2}`,
 	`{"a":"-"}`, `{"a":"+"}`, `{"a":"."}`, `{"a":"e"}`, `{"a":""}`, `{"a":"-."}`, `{"a":"-0"}`, `{"a":".5"}`, `{"a":"5."}`, `{"a":4,"l":[{"q":1},2,null]}`}
 
 // oddLines: the lines of other framings of the same data (a pretty-printed object or array spread over several
@@ -343,6 +344,18 @@ func genC07(cw *caseWriter, seed uint64, tier string) {
 			// a header line read with ReadOne() first, a template applied to the importer afterwards, the rest streamed
 			// with the importer WithTemplate returns: the rest is processed as if it were the whole input
 			emitStreamAfterHeader(cw, "C07", pr[0], pr[1], data)
+		}
+		if i%4 == 0 && len(data) > 0 {
+			// a read that hands over data TOGETHER with an error (of every kind in turn, the "temporary" ones included):
+			// the lines delivered so far keep their outcomes, in order, and nothing is made of what was not delivered
+			evs := chunk(data, pick(r, [][]int{{3}, {7}, {64}, {5, 1}}))
+			k := r.intn(len(evs))
+			if evs[k].kind == "d" {
+				evs = append(append([]readEv{}, evs[:k]...), readEv{kind: "de", data: evs[k].data})
+				for _, proc := range []string{"tolerant", "default"} {
+					emitStream(cw, "C07", pr[0], pr[1], proc, evs, nil, data, true)
+				}
+			}
 		}
 		if i%12 == 0 && !bytes.Contains(data, []byte{0}) {
 			// the same stream through the jl binary (its own processor logs and carries on)
